@@ -737,6 +737,14 @@ impl Serialize for Filter {
         if self.ignore_case_payload {
             state.serialize_field("ignoreCasePayload", &self.ignore_case_payload)?;
         }
+        if let Some((verb_mstp_mtin, mask)) = &self.verb_mstp_mtin {
+            if *mask == (0x07u8 << 1) {
+                // only the mstp is compared
+                state.serialize_field("mstp", &((verb_mstp_mtin >> 1) & 0x07u8))?;
+            } else {
+                state.serialize_field("verb_mstp_mtin", verb_mstp_mtin)?;
+            }
+        }
         if let Some(lvl) = &self.loglevel_min {
             state.serialize_field("logLevelMin", lvl)?;
         }
